@@ -310,25 +310,10 @@ func (r *run) settlementCheck(d *delivery, i int, prop string) {
 		}
 		r.viol("C02", "wrong-payout", fmt.Sprintf("seat %d received %d, reference allows %d..%d; contributions=%v fold=%v power=%v changed=%v", k, net, lo[k], hi[k], c, fold, power, changed), i)
 	}
-	// recorded per-pot withdrawals of tied winners differ by at most one
-	for pi, pr := range gs.Result.Pots {
-		if len(pr.Winners) < 2 {
-			continue
-		}
-		mn, mx := pr.Winners[0].Withdraw, pr.Winners[0].Withdraw
-		for _, w := range pr.Winners {
-			if w.Withdraw < mn {
-				mn = w.Withdraw
-			}
-			if w.Withdraw > mx {
-				mx = w.Withdraw
-			}
-		}
-		if mx-mn > 1 {
-			r.viol("C02", "tied-winners-differ>1 (remainders handed out per contribution level instead of per pot)",
-				fmt.Sprintf("result pot %d total %d winners withdraw between %d and %d; contributions=%v fold=%v power=%v", pi, pr.Total, mn, mx, c, fold, power), i)
-		}
-	}
+	// (The per-pot `Winners[].Withdraw` records are not judged: the engine
+	// leaves out the levels on which a winner merely gets his own chips back,
+	// so they are not the winners' shares. The shares are judged through
+	// `Changed` above.)
 }
 
 // ---- C16 ------------------------------------------------------------------
